@@ -427,6 +427,9 @@ class DatasetProcessor:
         self.io_support = IOSupport(self.args)
         self.all_read_groups = set()
         self.alignment_stat_counter = EnumStats()
+        # what the chosen strategy asks for, every experiment starts from these values
+        self.strategy_requires_monointronic_polya = self.args.require_monointronic_polya
+        self.strategy_requires_monoexonic_polya = self.args.require_monoexonic_polya
 
         if args.genedb:
             logger.info("Loading gene database from " + self.args.genedb)
@@ -522,11 +525,11 @@ class DatasetProcessor:
             self.args.polya_requirement_strategy)
         self.args.require_monointronic_polya = set_polya_requirement_strategy(
             # do not require polyA tails for mono-intronic only if the data is reliable and polyA percentage is low
-            self.args.require_monointronic_polya or self.args.requires_polya_for_construction,
+            self.strategy_requires_monointronic_polya or self.args.requires_polya_for_construction,
             self.args.polya_requirement_strategy)
         self.args.require_monoexonic_polya = set_polya_requirement_strategy(
             # do not require polyA tails for mono-intronic only if the data is reliable and polyA percentage is low
-            self.args.require_monoexonic_polya or self.args.requires_polya_for_construction,
+            self.strategy_requires_monoexonic_polya or self.args.requires_polya_for_construction,
             self.args.polya_requirement_strategy)
 
         self.process_assigned_reads(sample, saves_file)
